@@ -188,10 +188,12 @@ func runC13(c *Ctx) {
 				c.Unk("C13.U3-decode-by-cid-codec", t.pkg+"."+t.bytesTo, token.NoPos, "not found")
 			} else {
 				cidP := Op("param", bt.SSA.Params[0].Name())
-				decs := c.Calls(bt.SSA, c.RoleCall("schema.decode", Field("Codec", Call("cid.Cid).Prefix", cidP)), Any(), proto))
+				// (the decoding may sit in an unexported helper shared with a stream-reading entry point: the calls are
+				// looked up through it and read in this function's terms)
+				decs := c.CallsInl(bt.SSA, c.RoleCall("schema.decode", Field("Codec", Call("cid.Cid).Prefix", cidP)), Any(), proto), 2)
 				okDec := len(decs) == 1
-				var uwCall *CallSite
-				for _, cs := range c.Calls(bt.SSA, Any()) {
+				var uwCall *InlSite
+				for _, cs := range c.CallsInl(bt.SSA, Any(), 2) {
 					if cs.In.Common().StaticCallee() == uw.SSA {
 						cs := cs
 						uwCall = &cs
@@ -199,7 +201,7 @@ func runC13(c *Ctx) {
 				}
 				if okDec && uwCall != nil {
 					_, a := Match(Extract("0", Is(c.E(decs[0].In.(*ssa.Call)))), uwCall.X.Args[0])
-					_, g := c.Guarded(uwCall.In, EqNil(Extract("1", Is(c.E(decs[0].In.(*ssa.Call))))), true)
+					_, g := c.GuardedSite(*uwCall, EqNil(Extract("1", Is(c.E(decs[0].In.(*ssa.Call))))), true)
 					okDec = a && g
 				} else {
 					okDec = false
@@ -429,6 +431,22 @@ func runC13(c *Ctx) {
 				}
 			}
 		}
+		// …and that reader is what the codec is handed — directly or through helpers, not wrapped (a size cap meant for
+		// streams, applied to the in-memory path as well, cuts large blocks short)
+		if okSrc && data != nil {
+			decs := c.CallsInl(f.SSA, c.RoleCall("schema.decode"), 3)
+			okSrc = len(decs) == 1
+			for _, d := range decs {
+				if len(d.X.Args) < 2 {
+					okSrc = false
+					continue
+				}
+				m, isBuf := Match(Or(Call("bytes.NewBuffer", Bind("d")), Call("bytes.NewReader", Bind("d"))), d.X.Args[1])
+				if !isBuf || strip(m["d"]) == nil || strip(m["d"]).V != ssa.Value(data) {
+					okSrc = false
+				}
+			}
+		}
 		c.Check(okSrc && n == 1, "C13.U9-decodes-bytes-as-given", f.Name+" › decodes its data parameter", f.SSA.Pos(), "the codec reads from a buffer over the data parameter as handed in", "what is decoded is not the data handed in (rewritten, trimmed or replaced before the codec sees it): blocks that encode fine no longer decode")
 	}
 	c.Floor("C13.U9-decodes-bytes-as-given", 2)
@@ -647,9 +665,35 @@ func decodedHandedOnAsDecoded(c *Ctx, rule string) {
 			continue
 		}
 		want := f.SSA.Signature.Results().At(0).Type()
+		// (a decoder that only hands its reader to an unexported helper is judged in the helper)
+		body := f.SSA
+		for d := 0; d < 2; d++ {
+			var tail *ssa.Function
+			nRet := 0
+			for _, b := range body.Blocks {
+				ret, isRet := b.Instrs[len(b.Instrs)-1].(*ssa.Return)
+				if !isRet || b.Comment == "recover" {
+					continue
+				}
+				nRet++
+				if len(ret.Results) == 2 {
+					if ex, ok := ret.Results[0].(*ssa.Extract); ok {
+						if call, ok := ex.Tuple.(*ssa.Call); ok {
+							if callee := call.Call.StaticCallee(); callee != nil && samePkgBody(body, callee) && types.Identical(callee.Signature.Results().At(0).Type(), want) {
+								tail = callee
+							}
+						}
+					}
+				}
+			}
+			if nRet != 1 || tail == nil {
+				break
+			}
+			body = tail
+		}
 		var rec *X
 		n := 0
-		instrs(f.SSA, func(in ssa.Instruction) {
+		instrs(body, func(in ssa.Instruction) {
 			call, ok := in.(*ssa.Call)
 			if !ok {
 				return
@@ -672,9 +716,9 @@ func decodedHandedOnAsDecoded(c *Ctx, rule string) {
 			c.Unk(rule, f.Name+" › record from the unwrap step", f.SSA.Pos(), "expected one call yielding (*"+want.String()+", error), found "+fmt.Sprint(n))
 			continue
 		}
-		modified := storesRootedAt(c, f.SSA, rec)
+		modified := storesRootedAt(c, body, rec)
 		okRet, nRet := true, 0
-		for _, b := range f.SSA.Blocks {
+		for _, b := range body.Blocks {
 			ret, isRet := b.Instrs[len(b.Instrs)-1].(*ssa.Return)
 			if !isRet || b.Comment == "recover" || len(ret.Results) != 2 || c.RetX(ret, 1).Op != "nil" {
 				continue
